@@ -17,10 +17,13 @@ Monitors (post-conditions on every execution of the real functions, wherever the
 Driver-side relations between executions: linearity T(a x + b y) = a T(x) + b T(y); every FIRST result (transform, row
 sums, inverse, both dominant-frequency traces) re-judged by the same clauses after a second record of the same length
 went through the same functions (process-wide scratch state); caller arrays unchanged after a whole call sequence.
+Object histories: a post-hook on Signal.reset_values (every mutator ends there) and the values digest of the last monitored
+call tell the get_max_stockwell_freq monitor that the values changed; the trace must then be that of the current record.
 Every clause about values carries the parity of the record length ([even]/[odd]; odd lengths exercise the truncation).
 """
 import collections
 import math
+import weakref
 
 import numpy as np
 
@@ -49,22 +52,28 @@ RULE = ('cases = (record, container, implementation | dt) calls of the real func
         'per record (nice decimals and the 1/k floor-trap list cycled against the lengths, 1/k for random k <= 1000, '
         'log-uniform over [1e-9, 1e3], [1e-4, 10], [1e-3, 1]; Python float / int / numpy float64 / float32 scalars). For every N '
         'of the every-N block one same-object history: twin objects from one caller array and from each other\'s values, '
-        'repeated calls (cached swtf), reads of other cached quantities in between, the caller-presets-swtf idiom, and '
-        'reset_values followed by a call (stale cache: observation) and by the re-preset idiom (judged). '
+        'repeated calls (cached swtf), reads of other cached quantities in between, the caller-presets-swtf idiom, then '
+        'reset_values and 3 of 8 further mutators (add_constant, add_series, remove_average, remove_poly, butter_pass, '
+        'running_average, same / shorter reset) each followed by a call judged against the CURRENT values, the re-preset '
+        'idiom after a mutation (judged) and a foreign swtf attached after a mutation (counted). '
         'distinct = digest(record, options); non-trivial = record with at least two distinct values.')
 ASSUMPTIONS = ['real, finite records of length 4..1024 (complex input, scalars, lengths 1..3 and > 1024 are counted, not judged; '
                'records past 2**16 are not driven: the (n/2 x n) result alone would take 34 GB)',
                'the Gaussian window of width 1/f is periodised once: m runs over the alias representatives -(N/2-1)..N/2',
                'float32 records are judged with the tolerance scaled by eps(float32)/eps(float64) (numpy keeps the '
-               'precision of the input in the forward FFT); a float32 time step with 1e-6 relative on the frequencies',
+               'precision of the input in the forward FFT); with a float32 time step the frequencies are judged to '
+               '4*eps32*(N/2) relative (the axis may be formed in the precision of dt)',
                '"middle half" = samples ceil(N/4) .. floor(3N/4)-1 of the even-truncated record of length N',
                'an "on-grid sinusoid" is a record whose direct DFT vanishes (1e-9 relative, 2-norm; 1e-6 for float32 records) '
                'outside bins k and N-k; integer-quantised sinusoids are therefore judged by the column-maximum clause only',
                'transform(..., interp=True) is outside the statement (counted, not judged); a nested list passed as the '
                'time-frequency array of get_max_tifq_vals_freq is rejected by the library (counted)',
-               'the quantifier is over inputs, not object histories: get_max_stockwell_freq on an object whose cached swtf is '
-               'not the transform of its current values (reset_values keeps the old swtf) is counted as an observation, with '
-               'the number of such calls whose trace differs from the current record reported separately',
+               'object histories: the first get_max_stockwell_freq after the values of a signal object changed (any public '
+               'mutator; all end in reset_values; a change of values seen between two monitored calls counts too) must report '
+               'the trace of the CURRENT record (clause maxfreq(asig)==f.after-mutation) unless the caller attached another swtf '
+               'object after the change; an swtf the caller attached explicitly (at construction or after the last change) is '
+               'honoured: judged when it is a monitored transform of the current values, counted otherwise; a mutator that '
+               'raises is another property\'s business (counted)',
                'oracle vf/oracles/stransform.py is correct (vectorised direct sums, cross-checked in every run against the '
                'literal scalar triple loop on short records)']
 MIN_EVALS = {
@@ -83,23 +92,25 @@ MIN_EVALS = {
         'argument-unchanged(transform)': 9000, 'argument-unchanged(transform_w_scipy_fft)': 3000,
         'argument-unchanged(itransform)': 6000, 'argument-unchanged(get_max_tifq_vals_freq)': 8500,
         'argument-unchanged(get_max_stockwell_freq)': 6500, 'argument-unchanged(sequence)': 3000,
+        'maxfreq(asig)==f.after-mutation[even]': 240, 'maxfreq(asig)==f.after-mutation[odd]': 240,
         'oracle.vectorised==scalar': 8,
     },
     'thorough': {
-        'transform==definition[even]': 20000, 'transform==definition[odd]': 20000,
-        'transform_w_scipy_fft==definition[even]': 6000, 'transform_w_scipy_fft==definition[odd]': 6000,
-        'implementations-agree[even]': 3500, 'implementations-agree[odd]': 3500,
-        'shape==(n/2,n)[even]': 26000, 'shape==(n/2,n)[odd]': 26000,
-        'row-sum==conj(X_n)[even]': 26000, 'row-sum==conj(X_n)[odd]': 26000,
-        'linearity[even]': 350, 'linearity[odd]': 350,
-        'inverse==record-mean-nyquist[even]': 8000, 'inverse==record-mean-nyquist[odd]': 8000,
-        'maxfreq(asig)==f.middle-half[even]': 8000, 'maxfreq(asig)==f.middle-half[odd]': 8000,
-        'maxfreq(tifq)==f.middle-half[even]': 8000, 'maxfreq(tifq)==f.middle-half[odd]': 8000,
-        'maxfreq(asig).is-frequency-of-column-max[even]': 9000, 'maxfreq(asig).is-frequency-of-column-max[odd]': 9000,
-        'maxfreq(tifq).is-frequency-of-column-max[even]': 12000, 'maxfreq(tifq).is-frequency-of-column-max[odd]': 12000,
-        'argument-unchanged(transform)': 20000, 'argument-unchanged(transform_w_scipy_fft)': 6000,
-        'argument-unchanged(itransform)': 10000, 'argument-unchanged(get_max_tifq_vals_freq)': 15000,
-        'argument-unchanged(get_max_stockwell_freq)': 10000, 'argument-unchanged(sequence)': 2500,
+        'transform==definition[even]': 14000, 'transform==definition[odd]': 14000,
+        'transform_w_scipy_fft==definition[even]': 4000, 'transform_w_scipy_fft==definition[odd]': 4000,
+        'implementations-agree[even]': 3100, 'implementations-agree[odd]': 3100,
+        'shape==(n/2,n)[even]': 18000, 'shape==(n/2,n)[odd]': 18000,
+        'row-sum==conj(X_n)[even]': 18000, 'row-sum==conj(X_n)[odd]': 18000,
+        'linearity[even]': 340, 'linearity[odd]': 340,
+        'inverse==record-mean-nyquist[even]': 8300, 'inverse==record-mean-nyquist[odd]': 8300,
+        'maxfreq(asig)==f.middle-half[even]': 7700, 'maxfreq(asig)==f.middle-half[odd]': 7700,
+        'maxfreq(tifq)==f.middle-half[even]': 7100, 'maxfreq(tifq)==f.middle-half[odd]': 7100,
+        'maxfreq(asig).is-frequency-of-column-max[even]': 10400, 'maxfreq(asig).is-frequency-of-column-max[odd]': 10400,
+        'maxfreq(tifq).is-frequency-of-column-max[even]': 13000, 'maxfreq(tifq).is-frequency-of-column-max[odd]': 13000,
+        'argument-unchanged(transform)': 25000, 'argument-unchanged(transform_w_scipy_fft)': 6400,
+        'argument-unchanged(itransform)': 13600, 'argument-unchanged(get_max_tifq_vals_freq)': 23000,
+        'argument-unchanged(get_max_stockwell_freq)': 19500, 'argument-unchanged(sequence)': 7700,
+        'maxfreq(asig)==f.after-mutation[even]': 480, 'maxfreq(asig)==f.after-mutation[odd]': 480,
         'oracle.vectorised==scalar': 8,
     },
 }
@@ -275,10 +286,65 @@ def _par(n):
     return 'odd' if n % 2 else 'even'
 
 
-def _wit(fn, rec, kind, **kw):
+_SEQ = []      # witness builders of the driver sequences in progress (innermost last)
+
+
+def _raw_wit(fn, rec, kind, **kw):
     d = {'fn': fn, 'record': np.asarray(rec), 'container': kind}
     d.update(kw)
     return d
+
+
+def _wit(fn, rec, kind, **kw):
+    """Witness of a monitored call. Inside a driver sequence (one argument object / several records through several
+    functions) the witness is the WHOLE sequence, because what a call returns may depend on the calls before it
+    (process-wide state, shared argument objects); 'at' names the call that was being judged."""
+    if _SEQ:
+        d = dict(_SEQ[-1]())
+        d['at'] = fn
+        return d
+    return _raw_wit(fn, rec, kind, **kw)
+
+
+def _as_sequence(make_wit):
+    def deco(f):
+        def g(ctx, eqsig, *a, **k):
+            _SEQ.append(make_wit(*a, **k))
+            try:
+                return f(ctx, eqsig, *a, **k)
+            finally:
+                _SEQ.pop()
+        g.__name__ = f.__name__
+        g.__doc__ = f.__doc__
+        return g
+    return deco
+
+
+def _seq_linearity(impl, x, y, a, b):
+    x0, y0 = np.array(x), np.array(y)
+    return lambda: {'fn': 'linearity', 'impl': impl, 'record': x0, 'record2': y0, 'a': a, 'b': b, 'container': _kind(x)}
+
+
+def _seq_record(cont, dt, form):
+    rec, kind = np.array(cont), _kind(cont)
+    return lambda: _raw_wit('record-sequence', rec, kind, dt=dt, dt_form=_dt_form(dt), form=form)
+
+
+def _seq_back_to_back(cont, cont2, dt, tform=None):
+    rec, kind, rec2, kind2 = np.array(cont), _kind(cont), np.array(cont2), _kind(cont2)
+    return lambda: _raw_wit('back-to-back', rec, kind, record2=rec2, container2=kind2, dt=dt, dt_form=_dt_form(dt), tform=tform)
+
+
+def _seq_sinusoid(cont, dts, impl, tform):
+    rec, kind = np.array(cont), _kind(cont)
+    return lambda: _raw_wit('sinusoid-sequence', rec, kind, dts=list(dts), dt_forms=[_dt_form(d) for d in dts], impl=impl,
+                            tform=tform)
+
+
+def _seq_history(x1, x2, dt, dt2, order, muts=()):
+    p1, p2 = np.array(x1), np.array(x2)
+    return lambda: {'fn': 'history', 'record': p1, 'record2': p2, 'container': 'ndarray:float64', 'dt': dt,
+                    'dt_form': _dt_form(dt), 'dt2': dt2, 'dt2_form': _dt_form(dt2), 'order': list(order), 'muts': list(muts)}
 
 
 def _snapshot(obj):
@@ -393,8 +459,10 @@ def check_maxfreq(ctx, via, rec, kind, dt, amp, result, wit, tag='', amp_is_refe
         ctx.observe('maxfreq(%s):dt-not-positive-finite' % via)
         return
     low_dt = isinstance(dt, np.floating) and dt.dtype.itemsize < 8
-    grid_tol = 1e-6 if low_dt else 1e-9
-    freq_rtol = 1e-6 if low_dt else RTOL_FREQ
+    # a reduced-precision time step: the frequency axis may be formed in the precision of dt (n steps of rounding)
+    low_tol = 4.0 * float(np.finfo(dt.dtype).eps) * max(1, n_pts // 2) if low_dt else 0.0
+    grid_tol = low_tol if low_dt else 1e-9
+    freq_rtol = low_tol if low_dt else RTOL_FREQ
     res = np.asarray(result)
     # (1) every entry is the grid frequency n/(N dt), n in 1..N/2, of a row that attains the column maximum
     ok = res.shape == (n_pts,) and res.dtype.kind in 'fiu' and bool(np.all(np.isfinite(res)))
@@ -511,17 +579,55 @@ def _post_itransform(args, kwargs, result, snap):
     check_inverse(ctx, info['record'], info['kind'], info['impl'], info.get('derived'), result)
 
 
+_SEEN = weakref.WeakKeyDictionary()        # signal -> (swtf attached after its last monitored call, digest of its values then)
+_AFTER_MUT = weakref.WeakKeyDictionary()   # signal -> swtf still attached right after its last reset_values (None: dropped)
+
+
+def _post_reset_values(args, kwargs, result, pre):
+    """Every public mutator of Signal/AccSignal ends in reset_values: remember which swtf (if any) survived it."""
+    try:
+        _AFTER_MUT[args[0]] = getattr(args[0], 'swtf', None)
+    except TypeError:
+        pass
+
+
+def _mutation_state(asig, had, swtf_obj, dig):
+    """'none'         no change of values since the swtf in use was attached / since the last monitored call
+       'dropped'      values changed and no swtf is attached (the library recomputes)
+       'survivor'     values changed and the swtf attached BEFORE the change is still there
+       'caller-after' values changed and a different swtf object was attached afterwards (the caller's explicit choice)"""
+    try:
+        if asig in _AFTER_MUT:
+            surv = _AFTER_MUT[asig]
+            return 'dropped' if not had else ('survivor' if swtf_obj is surv else 'caller-after')
+        if asig in _SEEN:
+            seen_swtf, seen_dig = _SEEN[asig]
+            if seen_dig != dig:     # values changed without reset_values
+                return 'dropped' if not had else ('survivor' if swtf_obj is seen_swtf else 'caller-after')
+    except TypeError:
+        pass
+    return 'none'
+
+
 def _pre_maxfreq_asig(args, kwargs):
     asig = args[0] if args else kwargs.get('asig')
     had = hasattr(asig, 'swtf')
-    return had, _snapshot(getattr(asig, 'values', None)), (_snapshot(asig.swtf) if had else None), \
-        _kind(getattr(asig, 'values', None)), (asig.swtf if had else None)
+    vals0 = _snapshot(getattr(asig, 'values', None))
+    swtf_obj = asig.swtf if had else None
+    dig = core.digest(vals0) if vals0 is not None else None
+    return had, vals0, (_snapshot(swtf_obj) if had else None), _kind(getattr(asig, 'values', None)), swtf_obj, dig, \
+        _mutation_state(asig, had, swtf_obj, dig)
 
 
 def _post_maxfreq_asig(args, kwargs, result, pre):
     ctx = CTX
-    had_swtf, vals0, swtf0, vkind, swtf_obj = pre
+    had_swtf, vals0, swtf0, vkind, swtf_obj, dig, state = pre
     asig = args[0] if args else kwargs.get('asig')
+    try:
+        _AFTER_MUT.pop(asig, None)
+        _SEEN[asig] = (getattr(asig, 'swtf', None), dig)
+    except TypeError:
+        pass
     if vals0 is None:
         ctx.observe('maxfreq(asig):unconvertible-input')
         return
@@ -537,18 +643,25 @@ def _post_maxfreq_asig(args, kwargs, result, pre):
         return
     # the object's cache is never the yardstick: judge against the reference transform of the call-entry values
     ref, _ = _oracle(O.even_part(rec))
+    if state in ('survivor', 'dropped'):
+        # first call after the object's values changed (reset_values / add_constant / butter_pass / any mutator) with no
+        # swtf assigned by the caller since: the trace must be that of the CURRENT record
+        probe = core.Ctx(PROP_ID, ctx.tier, 0, 0, 1)
+        check_maxfreq(probe, 'asig', rec, kind, dt, np.abs(ref), result, wit, amp_is_reference=True)
+        ctx.check(not probe.violations, 'maxfreq(asig)==f.after-mutation[%s]' % _par(len(rec)), wit,
+                  'after the values of the signal object changed (%s) get_max_stockwell_freq does not report the trace of the '
+                  'current record: %s' % ('the swtf memoised for the OLD values is still attached' if state == 'survivor'
+                                          else 'no swtf attached', probe.violations[0]['msg'] if probe.violations else ''))
+        if state == 'survivor':
+            return
     if had_swtf:
         info = REG.get(swtf_obj)         # the object attached at call entry
         current = info is not None and info.get('derived') in VALUE_PRESERVING and \
             core.digest(O.even_part(info['record'])) == core.digest(O.even_part(rec))
         if not current:
-            # an swtf attached before the call that is not a monitored transform of the current values (e.g. kept by
-            # reset_values): object history, outside the quantifier of C15 -> counted, with an informational comparison
-            ctx.observe('maxfreq(asig):preset-swtf-not-the-transform-of-current-values')
-            probe = core.Ctx(PROP_ID, ctx.tier, 0, 0, 1)
-            check_maxfreq(probe, 'asig', rec, kind, dt, np.abs(ref), result, wit, amp_is_reference=True)
-            if probe.violations:
-                ctx.observe('maxfreq(asig):stale-swtf-trace-differs-from-current-record')
+            # an swtf the caller attached explicitly (at construction time or after the last mutation) that is not a
+            # monitored transform of the current values: the caller's choice is honoured -> counted, not judged
+            ctx.observe('maxfreq(asig):caller-preset-swtf-not-the-transform-of-current-values')
             return
     check_maxfreq(ctx, 'asig', rec, kind, dt, np.abs(ref), result, wit, amp_is_reference=True)
 
@@ -588,6 +701,7 @@ def install(ctx):
     attach.wrap(sw, 'itransform', _post_itransform, pre=_pre_itransform)
     attach.wrap(sw, 'get_max_stockwell_freq', _post_maxfreq_asig, pre=_pre_maxfreq_asig)
     attach.wrap(sw, 'get_max_tifq_vals_freq', _post_maxfreq_tifq, pre=_pre_maxfreq_tifq)
+    attach.wrap_method(eqsig.Signal, 'reset_values', _post_reset_values)
 
 
 # ------------------------------------------------------------------------------------------------------ driver
@@ -616,6 +730,7 @@ def _purity(ctx, obj, pristine, wit, what):
               '%s changed over the call sequence: %s' % (what, _first_change(obj, pristine)))
 
 
+@_as_sequence(_seq_linearity)
 def drive_linearity(ctx, eqsig, impl, x, y, a, b):
     """T(a x + b y) == a T(x) + b T(y), all three through the monitored function."""
     sw = eqsig.stockwell
@@ -640,6 +755,7 @@ STOCK_FORMS = (None, 'F', 'readonly', 'list')
 TIFQ_FORMS = (None, 'abs', 'abs32', 'abs-readonly', 'F', 'readonly')
 
 
+@_as_sequence(_seq_record)
 def drive_record(ctx, eqsig, cont, dt, form):
     """ONE argument object through both implementations (call spellings rotate with `form`), the inverse of one result,
     the dominant-frequency helper on the other, each in a rotating derived form; the object is compared bit-for-bit with its
@@ -682,6 +798,7 @@ def drive_record(ctx, eqsig, cont, dt, form):
             _call(ctx, 'maxfreq(tifq).is-frequency-of-column-max[%s]' % par, wit, sw.get_max_tifq_vals_freq, t, dt)
 
 
+@_as_sequence(_seq_back_to_back)
 def drive_back_to_back(ctx, eqsig, cont, cont2, dt, tform=None):
     """Process-wide state: the record `cont` goes through every function, then a second record of the same length does,
     while the first results are still held; then every FIRST result is judged again by the same clauses, and the first
@@ -736,6 +853,7 @@ def drive_back_to_back(ctx, eqsig, cont, cont2, dt, tform=None):
     _purity(ctx, cont2, rec2, wit, 'the second record')
 
 
+@_as_sequence(_seq_sinusoid)
 def drive_sinusoid(ctx, eqsig, cont, dts, impl, tform):
     """One sinusoid record (one argument object) through transform, inverse, get_max_stockwell_freq(AccSignal) and
     get_max_tifq_vals_freq for every dt."""
@@ -769,15 +887,43 @@ def drive_sinusoid(ctx, eqsig, cont, dts, impl, tform):
             'the sinusoid record (%s)' % kind)
 
 
-def drive_history(ctx, eqsig, x1, x2, dt, dt2, order):
+MUTATORS = ('add_constant', 'add_series', 'remove_average', 'remove_poly', 'butter_pass', 'running_average', 'reset_same',
+            'reset_shorter')
+
+
+def _mutate(a, name, x1, dt):
+    if name == 'add_constant':
+        a.add_constant(0.37 * float(np.max(np.abs(a.values)) or 1.0))
+    elif name == 'add_series':
+        a.add_series(x1[:a.npts] if a.npts <= len(x1) else np.resize(x1, a.npts))
+    elif name == 'remove_average':
+        a.remove_average()
+    elif name == 'remove_poly':
+        a.remove_poly(1)
+    elif name == 'butter_pass':
+        fny = 0.5 / float(dt)
+        a.butter_pass((0.1 * fny, 0.8 * fny))
+    elif name == 'running_average':
+        a.running_average(3)
+    elif name == 'reset_same':
+        a.reset_values(np.array(a.values))
+    elif name == 'reset_shorter':
+        a.reset_values(np.array(a.values[:a.npts - 3]))
+    else:
+        raise ValueError(name)
+
+
+@_as_sequence(_seq_history)
+def drive_history(ctx, eqsig, x1, x2, dt, dt2, order, muts=()):
     """Same-object history on AccSignal: twins from one caller array and from each other's values, repeated calls on the
-    cached swtf, reads of other cached quantities in between, the caller-presets-swtf idiom, reset_values (stale swtf:
-    observation) and the re-preset idiom (judged against the new values)."""
+    cached swtf, reads of other cached quantities in between, the caller-presets-swtf idiom; then public mutators
+    (reset_values, add_constant, add_series, remove_average, remove_poly, butter_pass, running_average, same / shorter
+    reset), each followed by a call that must report the trace of the CURRENT record; the re-preset idiom after a mutation
+    (judged against the new values) and a foreign swtf preset after a mutation (the caller's choice: counted)."""
     sw = eqsig.stockwell
     p1, p2 = x1.copy(), x2.copy()
     par = _par(len(x1))
-    wit = lambda: {'fn': 'history', 'record': p1, 'record2': p2, 'container': 'ndarray:float64', 'dt': dt, 'dt2': dt2,  # noqa
-                   'order': list(order)}
+    wit = _SEQ[-1]
     try:
         a = eqsig.AccSignal(x1, dt)
         twin = eqsig.AccSignal(x1, dt2)              # twin from the same caller array
@@ -801,13 +947,25 @@ def drive_history(ctx, eqsig, x1, x2, dt, dt2, order):
                 c = eqsig.AccSignal(x2, dt)
                 c.swtf = sw.transform(c.values)      # idiom of plot_stock: the caller attaches the transform
                 sw.get_max_stockwell_freq(c)
-        a.reset_values(x2)
-        sw.get_max_stockwell_freq(a)                 # swtf kept by reset_values: observation, not judged
-        a.swtf = sw.transform(a.values)
-        sw.get_max_stockwell_freq(a)                 # judged against the new values
+        a.reset_values(np.array(x2))                 # (a private copy: who owns the caller's array is C05's business)
+        sw.get_max_stockwell_freq(a)                 # must be the trace of x2
+        a.swtf = sw.transform(a.values)              # the caller re-attaches after the mutation: honoured, judged
+        sw.get_max_stockwell_freq(a)
+        for m in muts:
+            try:
+                _mutate(a, m, x1, dt)
+            except Exception:   # noqa  (the mutators are other properties' business)
+                ctx.observe('history:mutator-%s-raised' % m)
+                continue
+            sw.get_max_stockwell_freq(a)             # must be the trace of the values the object has NOW
+            if m == 'add_constant':
+                sw.get_max_stockwell_freq(a)         # and again, now on the memoised transform
+        a.reset_values(np.array(x1))
+        a.swtf = sw.transform(x2)                    # a foreign transform attached after the mutation: the caller's choice
+        sw.get_max_stockwell_freq(a)
         sw.get_max_stockwell_freq(twin)              # the twin never changed
     except Exception as ex:   # noqa
-        ctx.exception('maxfreq(asig)==f.middle-half[%s]' % par, wit(), ex)
+        ctx.exception('maxfreq(asig)==f.after-mutation[%s]' % par, wit(), ex)
     _purity(ctx, x1, p1, wit, 'the caller array the twin objects were built from')
     _purity(ctx, x2, p2, wit, 'the caller array passed to reset_values')
 
@@ -1118,7 +1276,8 @@ def run_item(ctx, eqsig, rng, idx, item):
         order = [['repeat', 'twin', 'read', 'clone', 'preset'][int(i)] for i in rng.permutation(5)]
         order += [order[int(rng.integers(5))]]
         ctx.case(core.digest(xs[2], xs[1], 'history', order), nontrivial=True, cls='history-%s' % _par(length))
-        drive_history(ctx, eqsig, xs[2].copy(), xs[1].copy(), dts[(idx + 1) % 8], dts[(idx + 2) % 8], order)
+        muts = [MUTATORS[int(i)] for i in rng.permutation(len(MUTATORS))[:3]]
+        drive_history(ctx, eqsig, xs[2].copy(), xs[1].copy(), dts[(idx + 1) % 8], dts[(idx + 2) % 8], order, muts)
 
 
 def oracle_selfcheck(ctx, rng):
@@ -1202,10 +1361,13 @@ def replay(w):
         elif fn == 'record-sequence':
             drive_record(ctx, eqsig, _container(rec, kind), dt if dt is not None else 0.01, int(w.get('form', 0)))
         elif fn == 'sinusoid-sequence':
-            drive_sinusoid(ctx, eqsig, _container(rec, kind), w.get('dts', [0.01]), w.get('impl', 'transform'), w.get('tform'))
+            dts = w.get('dts', [0.01])
+            forms = w.get('dt_forms') or [None] * len(dts)
+            drive_sinusoid(ctx, eqsig, _container(rec, kind), [_dt_build(d, f) for d, f in zip(dts, forms)],
+                           w.get('impl', 'transform'), w.get('tform'))
         elif fn == 'history':
             drive_history(ctx, eqsig, np.array(rec, dtype=float), np.array(w['record2'], dtype=float), dt,
-                          _dt_build(w.get('dt2', 0.01), None), w.get('order', []))
+                          _dt_build(w.get('dt2', 0.01), w.get('dt2_form')), w.get('order', []), w.get('muts', []))
         else:
             return ['unknown witness kind %r' % fn]
     except Exception as ex:   # an exception on the recorded in-domain input still refutes
